@@ -142,7 +142,7 @@ func jobsFor(prop, tier string) []*Job {
 	case "C19":
 		lens := [][3]int{{1, 1, 1}, {3, 2, 2}, {2, 1, 3}}
 		if thorough {
-			lens = append(lens, [3]int{4, 3, 3}, [3]int{5, 5, 1})
+			lens = append(lens, [3]int{4, 3, 3}, [3]int{4, 5, 1})
 		}
 		for form := 0; form < 3; form++ {
 			for _, l := range lens {
